@@ -218,7 +218,7 @@ def main(argv=None):
     if scope is not None:
         for key in list(m["vkeys"]):
             mon = json.loads(key)[0]
-            if not any(mon == s or mon.startswith(s) for s in scope):
+            if not mon.startswith("B-driver") and not any(mon == s or mon.startswith(s) for s in scope):
                 n = m["vkeys"].pop(key)
                 out_of_scope[mon] += n
                 m["violation_count"] -= n
